@@ -152,8 +152,7 @@ theorem step_WF (op : Op) (env env' : Env) (h : EnvWF env) (hs : step op env = s
       · rename_i hnd
         simp only [Option.map_eq_some_iff] at hs
         obtain ⟨b, hb, rfl⟩ := hs
-        exact EnvWF_append h (C02_WF_takeSlice a indices axes b (get hi)
-          (by intro axn' h'; rw [hax] at h'; cases h'; exact hnd) hb)
+        exact EnvWF_append h (C02_WF_takeSlice a indices axes b (get hi) hb)
       · cases hs
     · cases hs
   | addTrivialLeg i axis qconj =>
